@@ -202,6 +202,30 @@ PROPS = {
         assumptions=["hooks supplied by the user return when released (they are functions of the harness)", "Join is probed after the last Fork (documented usage)", "hooks are distinct objects (AddExitHook refuses one that is already registered)"],
         trusted_base=["pkg/process/process.go, exithook.go transcribed by hand into theories/Process/Process.v", COMMON_MODEL],
     ),
+    "C05": dict(
+        level_text="Coq theorems about process-local stores (pkg/process/local.go) and the per-process endpoint maps of ports, modelled at LOCK granularity (every Lock/RLock, critical section, Unlock and call of user code is one step of a thread; a history is any interleaving of any number of threads calling Store / Load / Delete / LoadOrStore / AddStoreHook / RemoveStoreHook / Keys / Close / port Open / port Close / AddExitHook / Exit): no reachable state is a deadlock (unless all threads have returned some thread can step); locks exclude; the initialiser of a lazy cell runs at most once and a process sees at most one run more than its entry was deleted; in every state where all threads have returned a terminated process has no value, lazy cell, waiter list or port endpoint left. The pinned Store (exit hook registered with the store's lock held) is kept in the model with the 3-step wedge as a theorem. Tied to the code by driving a real Local[int], real ports and processes from 2-3 worker goroutines that are held inside every user callback, so that other workers' operations and Exit land between any two critical sections; after each step worker states (returned / held / waiting for a mutex, read off the goroutine dump), map sizes, running processes and the workers' logs are compared with the model. PARTIAL: tracer tables, the debug agent and goroutines are not modelled; they are measured: workloads on a real workflow (with and without the agent, requests abandoned at random points) followed by the exit of every process must leave every port map, both tracers, the agent's process and frame lists empty and the engine's goroutine count back at its starting value within 3 s.",
+        level_note="Partial as stated. Trusted: Coq kernel + vm_compute; hand transcription of local.go, InPort.Open/Close, OutPort.Open/Close, Process.Exit/AddExitHook (flip and hook list only) into theories/Process/Local.v; critical sections are atomic steps between Lock and Unlock (the lock discipline itself is what the no-deadlock and exclusion theorems are about); user code is assumed to return and not to call back into the same store. The harness holds goroutines only inside user code, so finer interleavings are covered by the theorems, not by the correspondence.",
+        technique="Coq invariant proofs over all interleavings at lock granularity (well-formed continuations => no deadlock; lock exclusion; single-flight counting; cleanup-coverage invariant => no residue) + vm_compute correspondence under forced interleavings + direct residue / goroutine oracle on real workflows",
+        quick_n=250, thorough_n=5000, shard=50, mismatch_is_failure=True,
+        assumptions=["user callbacks return and do not re-enter the same store", "critical sections of Process (status flip, hook registration) are atomic (C04, C20)", "process indices with store hooks never have two LoadOrStore calls waiting on one cell (which of them stores first is scheduler-dependent and not observable otherwise)"],
+        trusted_base=["pkg/process/local.go, pkg/port/inport.go (Open, Close), pkg/port/outport.go (Open, Close), pkg/process/process.go (Exit, AddExitHook) transcribed by hand into theories/Process/Local.v", COMMON_MODEL, "verif hooks: VerifLen on Local, InPort, OutPort, Tracer; VerifTracer on the node kinds"],
+    ),
+    "C19": dict(
+        level_text="Coq theorems about the agent's frame bookkeeping as a function of the sequence of packet-hook firings of a process (any number of ports, any interleaving): the frames held for a port are, in order, the k-th packet its inbound hook saw paired with the k-th packet its outbound hook saw, and firings on other ports never touch them - so with endpoints answering in request order (C01/C02) each complete frame pairs a packet that entered a port with the packet that answered it on that port; the pinned matching rule is refuted by a four-firing witness. About breakpoints (thread machine of OnFrame / Next / Done / Close): once a breakpoint is closed, a packet paused in OnFrame steps without a partner and leaves in two steps; done never reopens. PARTIAL: transparency (no response changes with the agent attached) and release by RemoveBreakpoint / Debugger.Close are differential measurements: the node-level workflows and schedules of C02 run from one seed without the agent, with the agent and no breakpoint, and with agent + debugger (random breakpoints, Pause / Step / Remove while packets are paused, then all removed or the debugger closed); every run must give every request its reference answer within the deadline; the hook firings recorded by the harness's own hooks and Agent.Frames are compared with the model per port.",
+        level_note="Partial as stated. Trusted: Coq kernel + vm_compute; hand transcription of agent.go (hooks) and breakpoint.go; packet hooks are observers in the model by construction; Debugger (Pause/Step plumbing) is exercised, not modelled. Liveness after close is a deadline on the implementation.",
+        technique="Coq proof (frames of a port = zip of its inbound and outbound hook sequences, by induction over firings; locality; refutation of the pinned rule; breakpoint release lemmas) + vm_compute correspondence of Agent.Frames + differential runs with / without agent and debugger against the C02 reference answers",
+        quick_n=60, thorough_n=1200, shard=100, mismatch_is_failure=True,
+        assumptions=["an endpoint answers its requests in order, exactly once (C01, C02)", "one process per workflow run (a.frames is keyed by process)"],
+        trusted_base=["pkg/runtime/agent.go (hooks), pkg/runtime/breakpoint.go transcribed by hand into theories/Runtime/Agent.v, Breakpoint.v", COMMON_MODEL],
+    ),
+    "C20": dict(
+        level_text="The locking protocol of the shared objects, extracted from /repo's current source on every run by a translator (go/parser + go/types): every root of execution (exported API, methods reached through interfaces, goroutine bodies, deferred closures) of the packages process, packet, port, types, encoding, store, symbol, runtime as control-flow paths of lock operations and accesses to the mutable fields of mutex-owning structs, callees inlined. Coq checks on that skeleton by computation: every such access holds the field's guard on the same object (exclusively for writes), no path re-takes, leaks or wrongly releases a lock, and the lock order between lock classes is acyclic; and a theorem proved once for any skeleton: in the interleaving semantics of any number of threads each running a checked path, no reachable state has two threads at conflicting accesses of one field, and no thread waits for a lock it holds. PARTIAL: what the lock protocol cannot see - data handed out of critical sections (slice and map contents, public fields of plain structs), channels, atomics, the Go memory model itself - is searched, not proved: contended workloads on one shared instance of each object (process-local store, processes, ports, writer/readers/tracer, node workflows with and without the agent and a frame watcher, store, symbol table, value maps and codec registries) run under the Go race detector with panic recovery and a watchdog.",
+        level_note="Partial as stated. Trusted: the translator (what it recognises as lock operation, field access, synchronous callback vs. deferred closure, constructor context; `base` expression text as object identity; loops as zero-or-one iteration; 3 documented exemptions; the allowed self-edge of Process) - a translator bug can hide a violation; Coq kernel + vm_compute; Go's race detector and the schedules it happens to see.",
+        technique="Go-AST translator (regenerated every run) -> Coq lockset / lock-order obligations by vm_compute + Coq soundness theorem for the interleaving semantics (lock exclusion invariant) + race-detector workloads as search",
+        quick_n=0, thorough_n=0, shard=1, harness=False, pre_build=c20_pre_build, pre=c20_pre, diagnose=c20_diagnose, standalone_props=True,
+        assumptions=["equal base expression text = same object (aliases under other names are not related)", "critical sections are what the translator sees between Lock and Unlock of the structs' own mutexes", "hooks, listeners and callbacks supplied by users are outside the protocol"],
+        trusted_base=["/verif/translator (go/ast, go/types) and its exemption list", "pkg/* source as parsed from /repo on this run", COMMON_MODEL, "Go race detector (runtime/race) for the search"],
+    ),
     "C01": dict(
         level_text="Coq theorems for every history over the property's alphabet (any number of readers, any order): the serials of the responses emitted so far followed by the serials of the writes still pending are exactly 0..accepted-1 - each accepted write is answered at most once, in write order, none lost; a write that reports zero accepting readers gets no response; responses are joins (errors dominate, empty answers vanish, payloads in link order); positional lookups stay in range. Tied to pkg/packet by driving one real Writer and real Readers through generated histories (the goroutines Reader.Close spawns are parked in a build-tagged gate and delivered as explicit steps) and comparing every return value, the response stream and the requests seen by each reader with the model, plus an identity-based request/response ledger in Go as failing-input oracle for attribution.",
         level_note="Trusted: Coq kernel + vm_compute; hand transcription of writer.go/reader.go/packet.go; steps are the code's critical sections (their atomicity is C20). Attribution of answers to writes (positional matching) is checked against the ledger on generated histories, not proved in Coq; known finding F-C01-d (stale re-link).",
